@@ -421,6 +421,16 @@ func (in *inv) step(op *Op) {
 		wg.Wait()
 	case "sleep":
 		time.Sleep(time.Duration(op.Ms) * time.Millisecond)
+	case "nth": // body on the N-th execution of this op within the current run, else the other branch: a property that is NOT a function of its draws
+		r.mu.Lock()
+		r.counter["nth/"+op.Text]++
+		c := r.counter["nth/"+op.Text]
+		r.mu.Unlock()
+		if c == op.N {
+			in.run(op.Body)
+		} else {
+			in.run(op.Else)
+		}
 	case "count": // counter-dependent branch: body on the N-th execution of this op (per scenario, per invocation kind it is deterministic only if draws drive it)
 		key := fmt.Sprintf("%d/%s", in.id, op.Text)
 		r.mu.Lock()
